@@ -302,7 +302,7 @@ def _run_shard(binp, lines, rundir, tag, stall, results, idx, capture_stdout=Non
     stdout_chunks = []
     while skip < len(lines):
         p = subprocess.Popen([binp, cases, outp, str(skip)], stdout=subprocess.PIPE, stderr=subprocess.DEVNULL,
-                             env=(dict(os.environ, **EXTRA_ENV) if EXTRA_ENV else None))
+                             env=(dict(os.environ, **EXTRA_ENV) if EXTRA_ENV else None), preexec_fn=_big_stack)
         # read stdout in a thread so the pipe never fills
         buf = []
         t = threading.Thread(target=lambda: buf.append(p.stdout.read()))
@@ -339,6 +339,16 @@ def _run_shard(binp, lines, rundir, tag, stall, results, idx, capture_stdout=Non
     results[idx] = out[:len(lines)] + ["MISSING"] * max(0, len(lines) - len(out))
     if capture_stdout is not None:
         capture_stdout[idx] = b"".join(stdout_chunks)
+
+
+def _big_stack():
+    """extracted Coq functions recurse over lists of 10^5 elements: give the child the largest stack allowed"""
+    try:
+        import resource
+        soft, hard = resource.getrlimit(resource.RLIMIT_STACK)
+        resource.setrlimit(resource.RLIMIT_STACK, (hard, hard))
+    except Exception:
+        pass
 
 
 EXTRA_ENV = None   # a plugin may set this around one batch: the processes of that batch get these extra environment variables
